@@ -63,7 +63,7 @@ Lemma grow_safe fuel : forall key mark body lastresult lastmark, safe body -> sa
 Proof.
   induction fuel as [|f IH]; intros key mark body lr lm Hb st; cbn [grow]; [exact I|].
   apply bind_safe; [apply Hb|]. intros result s1.
-  destruct (negb (truthy result)); [exact I|]. destruct (Nat.leb (pos s1) lm); [exact I|]. apply IH. exact Hb.
+  destruct (negb (truthy result)); [exact I|]. destruct (truthy lr && Nat.leb (pos s1) lm); [exact I|]. apply IH. exact Hb.
 Qed.
 Lemma memoize_left_rec_safe fuel n body : safe body -> safe (memoize_left_rec toks verbose fuel n body).
 Proof.
